@@ -158,4 +158,24 @@ theorem parseList_cons_comment (m : Mode) (c w : Bool) (p : Nat) (v : Str) (ts :
   rw [parseList, List.length_cons, parseListF.eq_def]
   simp [parseList]
 
+theorem splitBlockContent_semi (d r : List Tok) (semi : Tok)
+    (hd : ∀ t ∈ d, isSemi t = false ∧ isCurly t = false) (hs : isSemi semi = true) :
+    splitBlockContent (d ++ semi :: r) = (d, [semi], r) := by
+  induction d with
+  | nil => simp [splitBlockContent, hs]
+  | cons t ts ih =>
+    have ht := hd t (by simp)
+    have := ih (fun x hx => hd x (by simp [hx]))
+    simp [splitBlockContent, ht, this]
+
+theorem splitBlockContent_curly (d r : List Tok) (p : Nat) (args : List Tok)
+    (hd : ∀ t ∈ d, isSemi t = false ∧ isCurly t = false) :
+    splitBlockContent (d ++ Tok.block p .curly args :: r) = (d ++ [Tok.block p .curly args], [], r) := by
+  induction d with
+  | nil => simp [splitBlockContent, isSemi, isLit, isCurly]
+  | cons t ts ih =>
+    have ht := hd t (by simp)
+    have := ih (fun x hx => hd x (by simp [hx]))
+    simp [splitBlockContent, ht, this]
+
 end WR.C06
